@@ -366,6 +366,76 @@ def run(chk):
             chk.violation("entry-model", "entry points agree with each other but not with the model on %d bytes: impl=%s model=%s"
                           % (len(buf), ref, mfinal), replay)
 
+    # ------------------------------------------------------------ part 2b: a REUSED scanner in the entry-point matrix, more than 64 rules
+    # every scanner-level entry point (mem, file, fd, single-block iterator one-shot and resumed) is called on a scanner
+    # that has just completed a DIFFERENT scan in which most rules - those with index >= 64 and >= 128 included -
+    # matched; the result must be that of yr_rules_scan_mem (a new scanner) on the same bytes, and of the model
+    nbig = 140
+    batoms = []
+    for k in range(nbig):
+        batoms.append([("S", k % 4), ("C", k % 4, 0), ("S", (k + 1) % 4), ("Z", 10), ("U", 0, 97), ("C", (k + 2) % 4, 1)][k % 6])
+    brules = mk(batoms, [(0, int(k % 11 == 5), k % 3 and 1) for k in range(nbig)])
+    prime = b"abcabcabca"                      # every string matches, filesize == 10, uint8(0) == 'a'
+    targets = [b"", b"bc", b"xxcaxx", b"abc", prime]
+    bcases, bmodel = [], []
+    BENTRIES = ["scan", "scanfile", "scanfd", "pscan", "ploop:1", "ploop:01"]
+    for bi, buf in enumerate(targets):
+        hxb = vlib.hx(buf)
+        cmds = brules.commands() + ["strings 0", "rscan 0 0 " + hxb, "blocks %d 0:%s" % (len(buf), hxb)]
+        for e in BENTRIES:
+            cmds += ["script -", "sflags 0", "scan " + vlib.hx(prime)]          # the different earlier scan
+            if e == "scan":
+                cmds.append("scan " + hxb)
+            elif e in ("scanfile", "scanfd"):
+                cmds.append("%s 0 %s" % (e, hxb))
+            elif e == "pscan":
+                cmds += ["notready -", "piter", "pscan"]
+            else:
+                cmds += ["notready " + e.split(":")[1], "piter", "ploop 10"]
+        bcases.append(("b%d" % bi, cmds))
+        bmodel.append(model_cmd(brules, 0, "-", len(buf), [(0, buf, len(buf))], ""))
+    bo, _ = vlib.run_cases(h, bcases, timeout=900)
+    bl, _ = vlib.run_lines(model, bmodel + [model_cmd(brules, 0, "-", len(prime), [(0, prime, len(prime))], "")], timeout=900)
+    _, prime_final, _ = parse_model(bl[len(bmodel)], brules)
+    n_reused = 0
+    for (cid, cmds), buf, ml in zip(bcases, targets, bl):
+        lines = [l for l in bo.get(cid, []) if l.startswith("scan msgs=") or l.startswith("crash")]
+        _, mfinal, _ = parse_model(ml, brules)
+        mshort = [m[:3] for m in mfinal]
+        replay = {"rules": "%d rules, see checks/c13.py part 2b" % nbig, "buffer_hex": vlib.hx(buf), "earlier_scan_hex": vlib.hx(prime),
+                  "harness_commands": cmds, "model": ml[:400]}
+        if not lines or any(l.startswith("crash") for l in lines):
+            chk.violation("reused-crash", "reused-scanner case %s crashed: %s" % (cid, lines[-2:]), replay, found_input=False)
+            continue
+        res = [protolib.parse_scan(l) for l in lines]
+        ref = [m[:3] for m in res[0][0]]
+        if ref != mshort or res[0][1] != 0:
+            chk.violation("reused-model", "yr_rules_scan_mem with %d rules differs from the model on %d bytes" % (nbig, len(buf)), replay)
+            continue
+        i = 1
+        for e in BENTRIES:
+            if i >= len(res):
+                chk.violation("reused-crash", "output of case %s ends early at entry %s" % (cid, e), replay, found_input=False)
+                break
+            pr = res[i]
+            i += 1
+            if [m[:3] for m in pr[0]] != [m[:3] for m in prime_final]:
+                chk.violation("reused:prime", "the earlier scan itself (%d rules, scanner reused before entry %s) differs from the model" % (nbig, e), replay)
+            while i < len(res) and res[i][1] == 61:
+                i += 1
+            if i >= len(res):
+                chk.violation("reused-crash", "output of case %s ends early at entry %s" % (cid, e), replay, found_input=False)
+                break
+            got = res[i]
+            i += 1
+            n_reused += 1
+            gshort = [m[:3] for m in got[0]]
+            if gshort != ref or got[1] != 0:
+                d = next((j for j, (a, b) in enumerate(zip(gshort, ref)) if a != b), min(len(gshort), len(ref)))
+                chk.violation("reused:" + e.split(":")[0], "entry %s on a scanner that completed a different scan before differs from yr_rules_scan_mem "
+                              "on the same %d bytes at message %d (%d rules): reused scanner %s, new scanner %s, rc=%d"
+                              % (e, len(buf), d, nbig, gshort[d:d + 3], ref[d:d + 3], got[1]), dict(replay, entry=e))
+
     # ------------------------------------------------------------ part 3: abandoned scans (scan_after_abandoned_equals_fresh)
     # a call returns ERROR_BLOCK_NOT_READY, the caller gives up and uses the same scanner for another buffer (new
     # iterator, or yr_scanner_scan_mem): result must be that of a new scanner - and of the model
@@ -606,9 +676,9 @@ def run(chk):
         "position_keeping": str(fin["keep"]), "rewinding": str(fin["naive"]), "first_block_lost": fin["keep"][1] != fin["naive"][1],
         "what": "capi.rst does not say that after a not-ready first() the scanner continues with next(); an iterator that "
                 "sets its position in first() before the readiness test loses block 0 on the retry"}
-    chk.note(evaluations=n_runs + n_entry + n_aband + n_ep + n_own, distinct_nontrivial=len([d for d in distinct if "1" in d[2]]),
-             traces_validated_against_impl=n_runs + n_entry + n_aband + n_ep + n_own, interrupted_runs=n_interrupted, conforming_patterns=n_conf,
-             patterns_outside_contract=n_nonconf, follow_up_scans=n_follow, entry_point_scans=n_entry, abandoned_scan_scenarios=n_aband, owned_resource_scans=n_own, entrypoint_runs=n_ep, entrypoint_runs_interrupted_after_header_block=n_ep_after, observations=obs,
+    chk.note(evaluations=n_runs + n_entry + n_aband + n_ep + n_own + n_reused, distinct_nontrivial=len([d for d in distinct if "1" in d[2]]),
+             traces_validated_against_impl=n_runs + n_entry + n_aband + n_ep + n_own + n_reused, interrupted_runs=n_interrupted, conforming_patterns=n_conf,
+             patterns_outside_contract=n_nonconf, follow_up_scans=n_follow, entry_point_scans=n_entry, abandoned_scan_scenarios=n_aband, reused_scanner_entry_scans=n_reused, owned_resource_scans=n_own, entrypoint_runs=n_ep, entrypoint_runs_interrupted_after_header_block=n_ep_after, observations=obs,
              rule="one evaluation = one complete run (all calls until the scan completes) or one entry-point scan; distinct = different "
                   "(buffer, block partition incl. null-data blocks, file_size known?, not-ready pattern); non-trivial = at least one "
                   "not-ready answer")
